@@ -1,6 +1,7 @@
 package main
 
 import (
+	"math/big"
 	"fmt"
 	"go/constant"
 	"go/token"
@@ -360,6 +361,18 @@ func (x *Exec) initialState() *State {
 	x.init = st.clone()
 	// axioms and global invariants of the contract's package
 	x.assumeBackground(st)
+	// lemmas: closed formulas over the entry heap, proved from the background alone (before the preconditions are
+	// assumed, so that they hold in every context); they are obligations only and are never assumed
+	if x.FC != nil {
+		for _, c := range x.FC.Lemmas {
+			env := x.entryEnv(st)
+			x.curPos = fmt.Sprintf("%s:%d", c.File, c.Line)
+			x.emit(st, "lemma", c.Label, x.evalBool(env, c.E, c), c.Src)
+		}
+		if len(x.FC.Lemmas) > 0 {
+			x.emitSmoke(st, "lemma background")
+		}
+	}
 	// preconditions
 	if x.FC != nil {
 		env := x.entryEnv(st)
@@ -392,10 +405,12 @@ func (x *Exec) assumeTypeInv(st *State, v Value, pre bool) {
 		// interior pointers (elemref/fieldref) are negative, objects positive, nil is 0
 		st.Assume(fmt.Sprintf("(< %s %s)", v.Term, bound))
 	case *types.Slice:
-		st.Assume(fmt.Sprintf("(and (>= (sbase %s) 0) (< (sbase %s) %s) (>= (slen %s) 0) (>= (scap %s) (slen %s)) (=> (= (sbase %s) 0) (= (scap %s) 0)))",
-			v.Term, v.Term, bound, v.Term, v.Term, v.Term, v.Term, v.Term))
+		st.Assume(fmt.Sprintf("(and (>= (sbase %s) 0) (< (sbase %s) %s) (>= (slen %s) 0) (>= (scap %s) (slen %s)) (<= (scap %s) %s) (=> (= (sbase %s) 0) (= (scap %s) 0)))",
+			v.Term, v.Term, bound, v.Term, v.Term, v.Term, v.Term, maxInt64, v.Term, v.Term))
 	case *types.Basic:
-		if u.Info()&types.IsUnsigned != 0 {
+		if lo, hi, ok := intBounds(v.Typ); ok && v.Sort == SInt {
+			st.Assume(fmt.Sprintf("(and (<= %s %s) (<= %s %s))", smtInt(lo), v.Term, v.Term, smtInt(hi)))
+		} else if u.Info()&types.IsUnsigned != 0 {
 			st.Assume(fmt.Sprintf("(>= %s 0)", v.Term))
 		}
 		if u.Info()&types.IsString != 0 {
@@ -421,7 +436,7 @@ func (x *Exec) assumeTypeInv(st *State, v Value, pre bool) {
 }
 
 func (x *Exec) strFacts(st *State, term string) {
-	st.Assume(fmt.Sprintf("(and (>= (strlen %s) 0) (= (= (strlen %s) 0) (= %s str_empty)))", term, term, term))
+	st.Assume(fmt.Sprintf("(and (>= (strlen %s) 0) (<= (strlen %s) %s) (= (= (strlen %s) 0) (= %s str_empty)))", term, term, maxInt64, term, term))
 }
 
 func (x *Exec) strLit(s string) string {
@@ -1206,7 +1221,7 @@ func (x *Exec) unop(st *State, ins *ssa.UnOp) Value {
 	case token.NOT:
 		return Value{Term: Not(v.Term), Typ: ins.Type(), Sort: SBool}
 	case token.SUB:
-		return Value{Term: app("-", v.Term), Typ: ins.Type(), Sort: v.Sort}
+		return x.checkedArith(st, ins, "neg", Value{Term: app("-", v.Term), Typ: ins.Type(), Sort: v.Sort})
 	case token.ARROW:
 		return x.doRecv(st, ins, v)
 	case token.XOR:
@@ -1267,11 +1282,11 @@ func (x *Exec) binop(st *State, ins ssa.Instruction, op token.Token, a, b Value,
 	at, bt := a.Term, b.Term
 	switch op {
 	case token.ADD:
-		return Value{Term: app("+", at, bt), Typ: rt, Sort: rs}
+		return x.checkedArith(st, ins, "+", Value{Term: app("+", at, bt), Typ: rt, Sort: rs})
 	case token.SUB:
-		return Value{Term: app("-", at, bt), Typ: rt, Sort: rs}
+		return x.checkedArith(st, ins, "-", Value{Term: app("-", at, bt), Typ: rt, Sort: rs})
 	case token.MUL:
-		return Value{Term: app("*", at, bt), Typ: rt, Sort: rs}
+		return x.checkedArith(st, ins, "*", Value{Term: app("*", at, bt), Typ: rt, Sort: rs})
 	case token.QUO:
 		x.emit(st, "div0", x.labelFor(ins, "div0", ""), Not(Eq(bt, "0")), "")
 		// Go truncated division
@@ -1292,7 +1307,7 @@ func (x *Exec) binop(st *State, ins ssa.Instruction, op token.Token, a, b Value,
 	case token.SHL:
 		// shift by constant: multiply
 		if n, ok := smallConst(bt); ok {
-			return Value{Term: app("*", at, fmt.Sprintf("%d", int64(1)<<uint(n))), Typ: rt, Sort: rs}
+			return x.checkedArith(st, ins, "<<", Value{Term: app("*", at, fmt.Sprintf("%d", int64(1)<<uint(n))), Typ: rt, Sort: rs})
 		}
 	case token.SHR:
 		if n, ok := smallConst(bt); ok {
@@ -1304,6 +1319,55 @@ func (x *Exec) binop(st *State, ins ssa.Instruction, op token.Token, a, b Value,
 	}
 	x.fail("unsupported binary op %s", op)
 	return Value{}
+}
+
+const maxInt64 = "9223372036854775807"
+
+// intBounds gives the value range of a Go integer type (int, uint and uintptr are 64 bits wide: the module is
+// verified for 64-bit platforms).
+func intBounds(t types.Type) (lo, hi *big.Int, ok bool) {
+	b, isB := types.Unalias(t).Underlying().(*types.Basic)
+	if !isB || b.Info()&types.IsInteger == 0 {
+		return nil, nil, false
+	}
+	bits := uint(64)
+	switch b.Kind() {
+	case types.Int8, types.Uint8:
+		bits = 8
+	case types.Int16, types.Uint16:
+		bits = 16
+	case types.Int32, types.Uint32:
+		bits = 32
+	case types.UntypedInt, types.UntypedRune:
+		return nil, nil, false
+	}
+	one := big.NewInt(1)
+	if b.Info()&types.IsUnsigned != 0 {
+		return big.NewInt(0), new(big.Int).Sub(new(big.Int).Lsh(one, bits), one), true
+	}
+	h := new(big.Int).Lsh(one, bits-1)
+	return new(big.Int).Neg(h), new(big.Int).Sub(h, one), true
+}
+
+func smtInt(n *big.Int) string {
+	if n.Sign() < 0 {
+		return "(- " + new(big.Int).Neg(n).String() + ")"
+	}
+	return n.String()
+}
+
+// checkedArith: the model computes with mathematical integers; the obligation that the result of every +, -, *, <<
+// and unary - lies in the range of its Go type makes that model exact (Go wraps silently, it does not panic, so a
+// failure here means "the proof's arithmetic is not the machine's", reported like any other failed obligation).
+func (x *Exec) checkedArith(st *State, ins ssa.Instruction, op string, r Value) Value {
+	lo, hi, ok := intBounds(r.Typ)
+	if !ok || r.Sort != SInt || ins == nil {
+		return r
+	}
+	in := fmt.Sprintf("(and (<= %s %s) (<= %s %s))", smtInt(lo), r.Term, r.Term, smtInt(hi))
+	x.emit(st, "overflow", x.labelFor(ins, "overflow", op), in, "")
+	st.Assume(in)
+	return r
 }
 
 func smallConst(t string) (int, bool) {
@@ -1575,10 +1639,14 @@ func (x *Exec) convert(st *State, v Value, from, to types.Type) Value {
 	fs, ts := x.TM.Sort(from), x.TM.Sort(to)
 	fu, tu := types.Unalias(from).Underlying(), types.Unalias(to).Underlying()
 	if fs == ts {
-		// string <-> string, int <-> int (no overflow modelling: mathematical integers)
-		if fb, ok := fu.(*types.Basic); ok {
-			if tb, ok := tu.(*types.Basic); ok && fb.Info()&types.IsInteger != 0 && tb.Info()&types.IsInteger != 0 {
-				// narrowing conversions are assumed value-preserving; listed as modelling assumption
+		// string <-> string; integer <-> integer with Go's exact semantics: the value is kept when the target type
+		// can represent every value of the source type, and wraps modulo 2^N otherwise
+		if flo, fhi, ok := intBounds(from); ok && fs == SInt {
+			if tlo, thi, ok := intBounds(to); ok && (flo.Cmp(tlo) < 0 || fhi.Cmp(thi) > 0) {
+				size := new(big.Int).Add(new(big.Int).Sub(thi, tlo), big.NewInt(1))
+				// ((v - tlo) mod 2^N) + tlo
+				t := fmt.Sprintf("(+ (mod (- %s %s) %s) %s)", v.Term, smtInt(tlo), smtInt(size), smtInt(tlo))
+				return x.mk(t, to)
 			}
 		}
 		v.Typ = to
